@@ -14,6 +14,7 @@ import (
 	"path/filepath"
 	"sort"
 	"strings"
+	"sync/atomic"
 	"time"
 
 	"github.com/zclconf/go-cty/cty/verifseam"
@@ -32,6 +33,9 @@ type simEntry struct {
 // it executes anything that could kill the process (race-detector halt, allocation blow-up).
 var onPlanned func(c *Ctx)
 
+// confirmMode is set when a recorded violation is being replayed in a fresh process.
+var confirmMode bool
+
 // registry: property -> simulations (selected round-robin by weight from the run index)
 var registry = map[string][]simEntry{}
 
@@ -49,6 +53,7 @@ func init() {
 	register("C19", "walk", 4, simC19Walk)
 	register("C19", "apply", 2, simC19Apply)
 	register("C19", "pathsets", 2, simC19PathSets)
+	register("C17", "store", 1, simC17Store)
 }
 
 func pickSim(prop string, index uint64) simEntry {
@@ -146,6 +151,7 @@ func main() {
 		fmt.Fprintln(os.Stderr, "usage: simworker run|replay|try ...")
 		os.Exit(2)
 	}
+	limitAddressSpace()
 	switch os.Args[1] {
 	case "run":
 		cmdRun(os.Args[2:])
@@ -189,10 +195,30 @@ func cmdRun(args []string) {
 	t0 := time.Now()
 	seenSig := map[string]bool{}
 	nviol := 0
+	// watchdog: a single run that takes longer than this is a stuck run; the process exits with a
+	// distinctive status so that the driver can attribute it to the run index (never a clock read
+	// that influences the simulation itself)
+	runTimeout := 120 * time.Second
+	if v := os.Getenv("VERIF_RUN_TIMEOUT"); v != "" {
+		if d, err := time.ParseDuration(v); err == nil {
+			runTimeout = d
+		}
+	}
+	var runStart atomic.Int64
+	go func() {
+		for {
+			time.Sleep(500 * time.Millisecond)
+			if s := runStart.Load(); s != 0 && time.Since(time.Unix(0, s)) > runTimeout {
+				fmt.Fprintf(os.Stderr, "simworker: run exceeded %v\n", runTimeout)
+				os.Exit(78)
+			}
+		}
+	}()
 	for i := *from; i < *from+*n; i++ {
 		if *budget > 0 && time.Since(t0) > *budget {
 			break
 		}
+		runStart.Store(time.Now().UnixNano())
 		se := pickSim(*prop, i)
 		if *onlySim != "" {
 			var ok bool
@@ -228,17 +254,32 @@ func cmdRun(args []string) {
 		orig := src.Recorded()
 		class := viol.Class + "|" + viol.Property
 		test := func(t *tape.Tape) bool {
+			runStart.Store(time.Now().UnixNano()) // the watchdog is per execution, not per run index
 			v, _ := runOne(*prop, se, *tier, tape.NewReplayer(t), NewStats())
 			return v != nil && v.Class+"|"+v.Property == class
 		}
+		noisy := viol.Class == "excessive-allocation" // decided on a measured quantity: failing to reproduce is inconclusive, not a harness fault
 		if !test(orig) {
+			if noisy {
+				emit(outLine{T: "inconclusive", I: i, Msg: viol.Detail})
+				continue
+			}
 			emit(outLine{T: "nondeterministic", I: i, Msg: "violation did not reproduce from its own recorded tape: " + viol.Detail})
 			continue
 		}
-		min, tests := tape.Shrink(orig, test, *shrinkTests)
+		budget := *shrinkTests
+		if *prop == "C17" && budget > 250 {
+			budget = 250 // decodes of hostile records can be slow; tapes here are short
+		}
+		min, tests := tape.Shrink(orig, test, budget)
+		runStart.Store(time.Now().UnixNano())
 		v1, c1 := runOne(*prop, se, *tier, tape.NewReplayer(min), NewStats())
 		v2, c2 := runOne(*prop, se, *tier, tape.NewReplayer(min), NewStats())
 		if v1 == nil || v2 == nil || c1.EventHash() != c2.EventHash() || v1.Class != v2.Class {
+			if noisy {
+				emit(outLine{T: "inconclusive", I: i, Msg: viol.Detail})
+				continue
+			}
 			emit(outLine{T: "nondeterministic", I: i, Msg: "minimised tape does not replay identically: " + viol.Detail})
 			continue
 		}
@@ -282,6 +323,7 @@ func cmdReplay(mode string, args []string) {
 	if prop == "" {
 		prop = rp.Property
 	}
+	confirmMode = true
 	se, ok := findSim(prop, rp.Sim)
 	if !ok {
 		fmt.Fprintf(os.Stderr, "simworker: unknown simulation %s/%s\n", prop, rp.Sim)
@@ -334,4 +376,19 @@ func sortedKeys(m map[string]int) []string {
 	}
 	sort.Strings(k)
 	return k
+}
+
+// limitAddressSpace applies VERIF_RLIMIT_AS (bytes) so that an absurd allocation kills the worker
+// deterministically instead of depending on the host's overcommit policy (C17 workers only; a
+// race-detector build cannot live under such a limit and never gets one).
+func limitAddressSpace() {
+	v := os.Getenv("VERIF_RLIMIT_AS")
+	if v == "" {
+		return
+	}
+	var n uint64
+	fmt.Sscan(v, &n)
+	if n > 0 {
+		setRlimitAS(n)
+	}
 }
